@@ -15,6 +15,7 @@
 #include <algorithm>
 #include <cstdio>
 #include <cstdlib>
+#include <deque>
 #include <functional>
 #include <iostream>
 #include <map>
@@ -30,10 +31,25 @@ namespace {
 
 struct cap_channel
 {
-    void async_read(std::function<void(bytes)> const &cb) { read_cb = cb; }
+    // a read is completed at once when data is already waiting (a channel that
+    // buffers what arrived while no read was armed), else when data arrives
+    void async_read(std::function<void(bytes)> const &cb)
+    {
+        if (!queued.empty())
+        {
+            byte_storage const d = queued.front();
+            queued.pop_front();
+            auto const keep = cb;
+            keep(bytes(d.data(), d.size()));
+            return;
+        }
+        read_cb = cb;
+    }
     void write(bytes data) { written.append(data.begin(), data.end()); }
-    [[nodiscard]] bool is_alive() const { return true; }
+    [[nodiscard]] bool is_alive() const { return alive; }
     void close() {}
+    bool alive = true;
+    std::deque<byte_storage> queued;
     void receive(bytes data)
     {
         std::function<void(bytes)> cb;
@@ -400,12 +416,44 @@ void do_term(std::ostream &out, world &w, toks &t)
         };
         to.term.async_read(to.on_read);
     }
+    else if (op == "arm2")
+    {
+        // the same, but the client re-arms the read FIRST and looks at its tokens
+        // afterwards (legal: the tokens belong to this callback)
+        term_obj *p = &to;
+        to.on_read = [p](tokens ts) {
+            p->term.async_read(p->on_read);
+            std::ostringstream o;
+            o << "CB " << ts.size();
+            for (auto const &tk : ts) o << " | " << pr_token(tk);
+            p->pending_cb.push_back(o.str());
+        };
+        to.term.async_read(to.on_read);
+    }
     else if (op == "recv")
     {
         auto const b = unhex(t.str());
         to.chan.receive(bytes(b.data(), b.size()));
         for (auto const &l : to.pending_cb) out << l << "\n";
         to.pending_cb.clear();
+    }
+    else if (op == "recvq")
+    {
+        // several deliveries at once: the first completes the armed read, the others
+        // are waiting in the channel and complete each re-armed read synchronously
+        long n = t.num();
+        std::vector<byte_storage> ds;
+        for (long i = 0; i < n; ++i) ds.push_back(unhex(t.str()));
+        for (size_t i = 1; i < ds.size(); ++i) to.chan.queued.push_back(ds[i]);
+        if (!ds.empty()) to.chan.receive(bytes(ds[0].data(), ds[0].size()));
+        for (auto const &l : to.pending_cb) out << l << "\n";
+        to.pending_cb.clear();
+        to.chan.queued.clear();
+    }
+    else if (op == "alive")
+    {
+        to.chan.alive = t.num() != 0;
+        out << "AL " << to.term.is_alive() << "\n";
     }
     else { out << "ERR unknown terminal op " << op << "\n"; return; }
     flush_written(out, to);
